@@ -14,18 +14,18 @@ theorem C10_recv_never_faults (t : Ty) (h : t.WF) (evs : List ReadEv) (b : RBuf)
       (∀ occ, o = .msg occ → ∃ b'', dropGuard t.dict b' = some b'' ∧ RInv t.dict b'') :=
   FV.C10_recv_never_faults t h evs b rest hinv
 
-/-- **C10 (malformed is not "incomplete"), FlexVec offsets.** An item offset that points inside its own slot can never
+/-- **C10 (malformed is not "incomplete"), FlexVec offsets.** An item offset (not the `L::MAX` marker) that points inside its own slot can never
 become valid by receiving more bytes; it is reported as a content error at the slot (`InvalidData`), which `recv` turns into
 a parse error instead of asking for more input. (Before the repair it was `InsufficientSize`, and a receiver fed such a stream
 read until its buffer was full.) -/
 theorem C10_flex_bad_offset_is_content_error (d : Dict) (l : LenTy) (os fuel pos next : Nat) (data : Slice)
     (hal : data.addr % max l.align d.align = 0) (hla : data.addr % l.align = 0) (hlen : l.size ≤ data.len)
-    (hr : l.readU data = .ok next) (hn : next ≠ 0) (hlt : next < os) :
+    (hr : l.readU data = .ok next) (hn : next ≠ 0) (hmax : next ≠ l.max) (hlt : next < os) :
     flexValidate d l os (fuel + 1) pos data = .err ⟨.invalidData, pos⟩ := by
   unfold flexValidate
   have hc : checkAlignMin l.align l.size data = .ok () := checkAlignMin_ok.2 ⟨hla, hlen⟩
   have : os > next := hlt
-  simp [hal, hc, hr, hn, this]
+  simp [hal, hc, hr, hn, hmax, this]
 
 example : (recv (Ty.flex u32 L8).dict [.deliver 100] ⟨0, 64, 0, []⟩ [2,0,0,0, 0,0,0,0, 0,0,0,0]).1 = .parse ⟨.invalidData, 0⟩ := by decide
 
